@@ -116,6 +116,49 @@ os.replace(res+".new",res)
 PY
   rm -f "$RES.tmp"
   exit $rc;;
+benign)
+  # Harmless variants (/verif/benign/<id>/patch.diff: behaviour or internals change, every property
+  # still holds): all six quick checks must stay silent (exit 0) on each of them.
+  names=("$@")
+  shopt -s nullglob
+  dirs=()
+  if [ ${#names[@]} -eq 0 ]; then dirs=("$HERE"/benign/*/); else for n in "${names[@]}"; do dirs+=("$HERE/benign/$n/"); done; fi
+  RES="$HERE/benign/benign_results.txt"
+  rc=0
+  for d in "${dirs[@]}"; do
+    name="$(basename "$d")"; pf="$d/patch.diff"; [ -f "$pf" ] || continue
+    WT="/tmp/asesim-benign-$$"; OUTD="/tmp/asesim-benign-out-$$"
+    git -C /repo worktree remove --force "$WT" >/dev/null 2>&1; rm -rf "$OUTD"; mkdir -p "$OUTD"
+    git -C /repo worktree add -q --detach "$WT" HEAD || exit 2
+    if ! git -C "$WT" apply "$pf"; then echo "$name: patch does not apply"; git -C /repo worktree remove --force "$WT"; continue; fi
+    line="$name:"
+    for prop in ${BENIGN_PROPS:-C04 C05 C12 C13 C14 C16}; do
+      out="$(VERIF_REPO_OVERRIDE="$WT" VERIF_TARGET_DIR="$SIM/target/mut" VERIF_OUT="$OUTD" "$HERE/check" "$prop" quick 2>&1)"; r=$?
+      if [ $r -eq 0 ]; then line="$line $prop=silent"; else
+        line="$line $prop=ALARM(exit=$r)"; rc=1
+        echo "$out" | grep -E "^VIOLATION|^  kind=|^  detail|HARNESS-ERROR" | head -6 | sed "s/^/    [$name $prop] /"
+        v="$(echo "$out" | grep -m1 '^VIOLATION' | sed -n 's/.*replay=\(.*\)$/\1/p')"
+        [ -n "$v" ] && [ -f "$v" ] && mkdir -p "$HERE/benign/$name/alarms" && cp "$v" "$HERE/benign/$name/alarms/"
+      fi
+    done
+    echo "$line"
+    git -C /repo worktree remove --force "$WT"; rm -rf "$OUTD"
+  done | tee "$RES.tmp"
+  grep -q ALARM "$RES.tmp" && rc=1
+  python3 - "$RES" "$RES.tmp" <<'PY'
+import sys,os
+res,tmp=sys.argv[1:]
+d={}
+for f in (res,tmp):
+    if os.path.exists(f):
+        for l in open(f):
+            if ":" in l and not l.startswith(" "):
+                d[l.split(":")[0]]=l.rstrip("\n")
+open(res+".new","w").write("\n".join(d[k] for k in sorted(d))+"\n")
+os.replace(res+".new",res)
+PY
+  rm -f "$RES.tmp"
+  exit $rc;;
 *)
-  echo "usage: selftest.sh regress [PROP] | determinism [PROPS...] | sensitivity [NAMES...]" >&2; exit 2;;
+  echo "usage: selftest.sh regress [PROP] | determinism [PROPS...] | sensitivity [NAMES...] | benign [NAMES...]" >&2; exit 2;;
 esac
